@@ -239,12 +239,6 @@ func c22DispCase(out *verifx.Out, e *c22Env, k int, dc c22DispCfg) {
 		// the dispatcher wakes on a committed enqueue (or once a second): tick it with enqueues for a key
 		// whose publishes always succeed, until every entry has made its publishes or the budget is used up
 		deadline := time.Now().Add(8*st.quiet() + 6*time.Second)
-		tl := time.Now()
-		defer func() {
-			if os.Getenv("C22_DEBUG") != "" {
-				fmt.Fprintf(os.Stderr, "stage %d: loop+extra took %v\n", si, time.Since(tl))
-			}
-		}()
 		for time.Now().Before(deadline) {
 			done := true
 			pub.mu.Lock()
@@ -269,11 +263,7 @@ func c22DispCase(out *verifx.Out, e *c22Env, k int, dc c22DispCfg) {
 				time.Sleep(40 * time.Millisecond)
 			}
 		}
-		t0 := time.Now()
 		verifx.Check(mw.Stop(ctx))
-		if os.Getenv("C22_DEBUG") != "" {
-			fmt.Fprintf(os.Stderr, "stage %d: stop took %v\n", si, time.Since(t0))
-		}
 	}
 	rows := readRows()
 	pub.mu.Lock()
@@ -291,24 +281,28 @@ func c22DispCase(out *verifx.Out, e *c22Env, k int, dc c22DispCfg) {
 		rels := pub.rel[pub.idOf[kk]]
 		nrel := 0
 		for j, c := range calls {
-			// the backoff scheduled after a REPORTED failure that was released: nextAttemptAt − now as handed to
-			// ReleaseClaim (rounded up to the millisecond; it can only be SHORTER than the computed delay, by the
-			// time between the two clock readings)
-			delay := c22None
+			// the backoff scheduled after a REPORTED failure that was released, bracketed by two measurements that
+			// err in opposite directions: lo = nextAttemptAt − now as handed to ReleaseClaim (the clock was read
+			// again after the delay was computed: never more than the delay), hi = the instant the next Publish
+			// was scheduled for minus the instant this Publish returned (never less than the delay)
+			lo, hi := c22None, c22None
 			if c.outcome == '0' && nrel < len(rels) {
 				d := (rels[nrel] + time.Millisecond - 1).Milliseconds()
 				if d < 0 {
 					d = 0
 				}
-				delay = fmt.Sprint(d)
+				lo = fmt.Sprint(d)
 				nrel++
+				if j+1 < len(calls) {
+					hi = fmt.Sprint(calls[j+1].nextAt.Sub(c.ret).Milliseconds())
+				}
 			}
 			// never early: the next publish started no earlier than it was scheduled for
 			early := "0"
 			if j+1 < len(calls) && calls[j+1].start.Before(calls[j+1].nextAt) {
 				early = "1"
 			}
-			out.Line("pub %d %d %d %c %s %s", i, c.stage, c.attempt, c.outcome, delay, early)
+			out.Line("pub %d %d %d %c %s %s %s", i, c.stage, c.attempt, c.outcome, lo, hi, early)
 		}
 		fin, att := "delivered", c22None
 		if rw, ok := rows[kk]; ok {
